@@ -347,6 +347,20 @@ func (env *Env) evalCall(c *ast.CallExpr) *Val {
 			env.fail(c, "builtin "+b.Name())
 		}
 	}
+	// cmp.Compare on constants
+	if isFunc(info, c, "cmp", "Compare") && len(c.Args) == 2 {
+		a, b := env.eval(c.Args[0]), env.eval(c.Args[1])
+		if a == nil || b == nil || a.C == nil || b.C == nil {
+			env.fail(c, "cmp.Compare of non-constants")
+		}
+		switch {
+		case constant.Compare(a.C, token.LSS, b.C):
+			return intVal(-1)
+		case constant.Compare(a.C, token.GTR, b.C):
+			return intVal(1)
+		}
+		return intVal(0)
+	}
 	// slices.Contains(TABLE, x) over a slice literal (a local one or the initialiser of a package-level variable
 	// that is assigned nowhere else): membership in a finite set of constants
 	if isFunc(info, c, "slices", "Contains") && len(c.Args) == 2 {
